@@ -48,6 +48,8 @@ pub struct Model {
     pub handles: Vec<Option<MHandle>>,
     pub clock: T,
     pub version: u16,
+    /// names with disputed case mapping are in play: listing ORDER is not judged
+    pub relaxed_order: bool,
 }
 
 #[derive(Debug, Clone)]
@@ -132,6 +134,7 @@ impl Model {
             handles: vec![None, None, None, None],
             clock: T { secs: 1_600_000_000, nanos: 0 },
             version,
+            relaxed_order: false,
         }
     }
 
@@ -370,9 +373,21 @@ impl Model {
         };
         let gn: Vec<&str> = l.iter().map(|e| e.path.as_str()).collect();
         let wn: Vec<&str> = want.iter().map(|e| e.path.as_str()).collect();
-        if gn != wn {
-            return mm("model.listing-order", format!("{}: listing paths {:?} vs model {:?}", what, gn, wn));
-        }
+        let (l, want) = if self.relaxed_order {
+            let mut a = l.clone();
+            let mut b = want.to_vec();
+            a.sort_by(|x, y| x.path.cmp(&y.path));
+            b.sort_by(|x, y| x.path.cmp(&y.path));
+            if a.iter().map(|e| &e.path).ne(b.iter().map(|e| &e.path)) {
+                return mm("model.listing-set", format!("{}: listing paths {:?} vs model {:?}", what, gn, wn));
+            }
+            (a, b)
+        } else {
+            if gn != wn {
+                return mm("model.listing-order", format!("{}: listing paths {:?} vs model {:?}", what, gn, wn));
+            }
+            (l.clone(), want.to_vec())
+        };
         let dirty = self.dirty_paths();
         for (g, w) in l.iter().zip(want.iter()) {
             let skip_len = dirty.iter().any(|d| d == &w.path);
@@ -892,9 +907,22 @@ impl Model {
         };
         let gn: Vec<&str> = l.iter().map(|e| e.name.as_str()).collect();
         let wn: Vec<&str> = want.iter().map(|e| e.name.as_str()).collect();
-        if gn != wn {
-            return mm("model.listing-order", format!("{}: listing names {:?} vs model {:?}", what, gn, wn));
-        }
+        let (l, want) = if self.relaxed_order {
+            let mut a = l.clone();
+            let mut b = want.to_vec();
+            let key = |e: &EntryInfo| parse_path(&e.path).unwrap_or_default().iter().map(|s| s.to_uppercase()).collect::<Vec<_>>();
+            a.sort_by(|x, y| key(x).cmp(&key(y)).then(x.name.cmp(&y.name)));
+            b.sort_by(|x, y| key(x).cmp(&key(y)).then(x.name.cmp(&y.name)));
+            if a.iter().map(|e| &e.name).ne(b.iter().map(|e| &e.name)) {
+                return mm("model.listing-set", format!("{}: listing names {:?} vs model {:?}", what, gn, wn));
+            }
+            (a, b)
+        } else {
+            if gn != wn {
+                return mm("model.listing-order", format!("{}: listing names {:?} vs model {:?}", what, gn, wn));
+            }
+            (l.clone(), want.to_vec())
+        };
         let dirty = self.dirty_paths();
         for (g, w) in l.iter().zip(want.iter()) {
             let skip_len = dirty.iter().any(|d| d == &w.path);
@@ -1031,7 +1059,7 @@ impl Model {
                     Some(n) => n,
                     None => return,
                 };
-                let avail = node.data.len() - mh.pos as usize;
+                let avail = node.data.len().saturating_sub(mh.pos as usize);
                 let m = (*n).min(avail);
                 Res::Bytes(node.data[mh.pos as usize..mh.pos as usize + m].to_vec())
             }
@@ -1045,7 +1073,7 @@ impl Model {
                     Some(n) => n,
                     None => return,
                 };
-                let avail = node.data.len() - mh.pos as usize;
+                let avail = node.data.len().saturating_sub(mh.pos as usize);
                 let m = avail.min(1024);
                 Res::Bytes(node.data[mh.pos as usize..mh.pos as usize + m].to_vec())
             }
